@@ -1376,6 +1376,8 @@ class Scanner:
         if re.match(r"\s*(<=|>=|==|!=|<(?!<)|>(?!>))", r):
             return True
         l = re.sub(r"(([\w.:]+(\s*\([^()]*\))?\s*[-+*/]\s*)|\(\s*)*$", "", left)
+        if re.search(r"[A-Za-z_][\w:]*\s*<[\w:\s,*&<>]*>\s*$", l) and not re.search(r">=\s*$|->\s*$", l):
+            return False      # the closing bracket of a template argument list  f<T>(expr)
         if re.search(r"(<=|>=|==|!=|(?<![<-])<|(?<![>-])>)\s*$", l):
             return True
         return False
